@@ -129,7 +129,7 @@ func rulePub1(c *Ctx, r *Reporter) {
 
 	// the Store.Store(x) call
 	var storeCalls []*ssa.Call
-	var selects []*ssa.Select
+	var selects []ssa.Instruction // the broadcast: a select in Commit, or the call of a helper of package lungo that contains it
 	var cleanCalls, writeCalls []*ssa.Call
 	allInstrs(commit, func(in ssa.Instruction) {
 		switch x := in.(type) {
@@ -145,6 +145,19 @@ func rulePub1(c *Ctx, r *Reporter) {
 			}
 		case *ssa.Select:
 			selects = append(selects, x)
+		}
+		if call, ok := in.(*ssa.Call); ok {
+			if sf := call.Call.StaticCallee(); sf != nil && fnPkgPath(sf) == pkgLungo && sf.Blocks != nil && sf != commit {
+				has := false
+				allInstrs(sf, func(y ssa.Instruction) {
+					if _, ok := y.(*ssa.Select); ok {
+						has = true
+					}
+				})
+				if has {
+					selects = append(selects, call)
+				}
+			}
 		}
 	})
 	r.guard(len(storeCalls), 1, "e.store.Store(...) call in Commit")
@@ -231,6 +244,59 @@ func rulePub1(c *Ctx, r *Reporter) {
 		}
 	}
 	r.guard(len(selects), 1, "broadcast select in Commit")
+	// (v) every way out of Commit after the publish store goes through the loop over e.streams:
+	// no early return between publishing and waking the consumers
+	streamsF := c.field(pkgLungo, "Engine", "streams")
+	if streamsF != nil {
+		for _, S := range pubStoresOf(c, "Engine.Commit") {
+			isStreamLoop := func(in ssa.Instruction) bool {
+				rg, ok := in.(*ssa.Range)
+				return ok && isLoadOf(rg.X, streamsF)
+			}
+			passLoop := func(in ssa.Instruction) bool {
+				if isStreamLoop(in) {
+					return true
+				}
+				// a helper of package lungo that contains the loop (broadcast extracted into a method)
+				if call, ok := in.(*ssa.Call); ok {
+					if sf := call.Call.StaticCallee(); sf != nil && fnPkgPath(sf) == pkgLungo && sf.Blocks != nil {
+						found := false
+						allInstrs(sf, func(x ssa.Instruction) {
+							if isStreamLoop(x) {
+								found = true
+							}
+						})
+						return found
+					}
+				}
+				return false
+			}
+			bad := exitWithoutPassing(S, passLoop, nil)
+			if bad != nil {
+				r.bad("Engine.Commit:publish:every stream is woken", c.pos(S.Pos()), fmt.Sprintf("the exit at %s is reached after e.catalog was replaced without going through the loop over e.streams: a consumer blocked in Next is not woken by this commit", c.pos(bad.Pos())))
+			} else {
+				r.ok("Engine.Commit:publish:every stream is woken", c.pos(S.Pos()), "every way out after the publish store passes the loop over e.streams")
+			}
+		}
+	}
+}
+
+// pubStoresOf: the stores to Engine.catalog in the named function.
+func pubStoresOf(c *Ctx, fname string) []*ssa.Store {
+	fn := c.lookupSSA(pkgLungo, fname)
+	catF := c.field(pkgLungo, "Engine", "catalog")
+	var out []*ssa.Store
+	if fn == nil || catF == nil {
+		return nil
+	}
+	allInstrs(fn, func(in ssa.Instruction) {
+		if st, ok := in.(*ssa.Store); ok {
+			if fa, ok := st.Addr.(*ssa.FieldAddr); ok && structFieldOf(fa) == catF {
+				out = append(out, st)
+			}
+		}
+	})
+	return out
 }
 
 // ---- TXN-1 ---------------------------------------------------------------------
@@ -407,6 +473,67 @@ func ruleTxn2(c *Ctx, r *Reporter) {
 			}
 		})
 		r.check(handed, "useTransaction:session txn used", c.pos(sessCall.Pos()), "the callback runs on the session's transaction when there is one", "the session transaction is looked up but the callback does not run on it")
+		// every path that reaches Begin has established "no session in the context" or "the session has no transaction";
+		// in particular the choice does not depend on the kind of call (lock)
+		paths, ends, trunc := enumPaths(use.Blocks[0], nil, func(b *ssa.BasicBlock) bool { return b == beginCall.Block() }, 4096)
+		if trunc {
+			r.unk("useTransaction:session always wins", c.pos(use.Pos()), "too many paths")
+			return
+		}
+		bad := ""
+		nb := 0
+		for pi, p := range paths {
+			if ends[pi] != beginCall.Block() {
+				continue
+			}
+			nb++
+			justified := false
+			for _, d := range p {
+				// the comma-ok of the session lookup being false
+				if ex, ok := d.cond.(*ssa.Extract); ok && ex.Index == 1 {
+					if ta, ok := ex.Tuple.(*ssa.TypeAssert); ok && ta.CommaOk && !d.taken {
+						if n := derefNamed(ta.AssertedType); n != nil && n.Obj().Name() == "Session" {
+							justified = true
+						}
+					}
+				}
+				// the session found in the context being nil
+				if bo, ok := d.cond.(*ssa.BinOp); ok && (bo.Op == token.NEQ || bo.Op == token.EQL) {
+					isSess := func(v ssa.Value) bool {
+						if ex, ok := v.(*ssa.Extract); ok {
+							v = ex.Tuple
+						}
+						ta, ok := v.(*ssa.TypeAssert)
+						if !ok {
+							return false
+						}
+						n := derefNamed(ta.AssertedType)
+						return n != nil && n.Obj().Name() == "Session"
+					}
+					if (isSess(bo.X) && isNilConst(bo.Y)) || (isSess(bo.Y) && isNilConst(bo.X)) {
+						if (bo.Op == token.NEQ) != d.taken {
+							justified = true
+						}
+					}
+				}
+				// the session's transaction being nil
+				if bo, ok := d.cond.(*ssa.BinOp); ok && (bo.Op == token.NEQ || bo.Op == token.EQL) {
+					if (bo.X == ssa.Value(res) && isNilConst(bo.Y)) || (bo.Y == ssa.Value(res) && isNilConst(bo.X)) {
+						if (bo.Op == token.NEQ) != d.taken {
+							justified = true
+						}
+					}
+				}
+			}
+			if !justified && bad == "" {
+				bad = "a path reaches Engine.Begin although the context carries a session with an active transaction"
+			}
+		}
+		if nb == 0 {
+			r.bad("useTransaction:session always wins", c.pos(use.Pos()), "no path reaches Engine.Begin")
+		} else {
+			r.check(bad == "", "useTransaction:session always wins", c.pos(beginCall.Pos()), fmt.Sprintf("all %d paths to Begin have established that there is no session transaction", nb), bad+" (e.g. only writes join it): reads inside a transaction then do not see the transaction's own writes")
+		}
 	}
 }
 
@@ -655,6 +782,9 @@ func ruleSig2(c *Ctx, r *Reporter) {
 									}
 								}
 							})
+							if !alive {
+								alive = aliveCheckedAtAllCallers(c, fn, 0)
+							}
 							good := alive && ls.mustHold(in, "lungo.Engine.mutex")
 							r.check(good, key, c.pos(in.Pos()), "engine-side send happens under Engine.mutex after a tomb.Alive() check (channels are closed only after Kill under that mutex)", "engine-side send without liveness check under Engine.mutex: may hit a closed channel")
 						}
@@ -745,4 +875,36 @@ func onlyCalledAfterKill(c *Ctx, fn *ssa.Function) bool {
 		})
 	}
 	return sites > 0 && okAll
+}
+
+// aliveCheckedAtAllCallers: fn is an unexported helper and each of its static call sites in package lungo is dominated by a tomb.Alive() call.
+func aliveCheckedAtAllCallers(c *Ctx, fn *ssa.Function, depth int) bool {
+	if depth > 2 || fn.Object() == nil || fn.Object().Exported() {
+		return false
+	}
+	sites, good := 0, 0
+	for _, g := range c.repoFuncs() {
+		if fnPkgPath(g) != pkgLungo {
+			continue
+		}
+		allInstrs(g, func(in ssa.Instruction) {
+			ci, ok := in.(ssa.CallInstruction)
+			if !ok || ci.Common().StaticCallee() != fn {
+				return
+			}
+			sites++
+			alive := false
+			allInstrs(g, func(a ssa.Instruction) {
+				if call, ok := a.(*ssa.Call); ok {
+					if f := calleeObj(&call.Call); f != nil && f.Pkg() != nil && f.Pkg().Path() == "gopkg.in/tomb.v2" && f.Name() == "Alive" && instrDominates(a, in) {
+						alive = true
+					}
+				}
+			})
+			if alive || aliveCheckedAtAllCallers(c, g, depth+1) {
+				good++
+			}
+		})
+	}
+	return sites > 0 && sites == good
 }
